@@ -2,6 +2,7 @@ package c06
 
 import (
 	"fmt"
+	"sort"
 
 	"pgregory.net/rapid"
 	"verif/val"
@@ -39,6 +40,15 @@ type gen struct {
 	hotStores []int
 	hotAtoms  []Atom
 	hotLeft   int
+	// guess of what each store holds outside its read-only layers, by atomID (adds, removes, merges)
+	held []map[string]Atom
+	// tlayered: the store is a temporal adapter over temporal layers (adds of layer atoms are interesting)
+	tlayered []bool
+	observe  string // the observation policy of the case
+	// predicate churn: after a listing of store churnOn, remove the only atom of a predicate (stage 1), add
+	// the first atom of a predicate the store does not have (stage 2), then let some consumer list the
+	// predicates again (stage 3) - the number of predicates is the same, the predicates are not.
+	churnOn, churnStage int
 }
 
 func atomID(a Atom) string { return fmt.Sprint(a.P, a.A) }
@@ -175,9 +185,75 @@ func (g *gen) inits(max int, used map[string]bool, base bool) []Atom {
 			g.baseAtoms[g.cur] = append(g.baseAtoms[g.cur], a)
 		} else {
 			g.present[g.cur] = append(g.present[g.cur], a)
+			g.held[g.cur][atomID(a)] = a
 		}
 	}
 	return res
+}
+
+// ivContaining / ivAny: interval codes (ivTable) that contain the reference instant / all of them.
+var ivContaining, ivAny = func() (c, a []int) {
+	for i, iv := range ivTable {
+		a = append(a, i)
+		if iv.contains {
+			c = append(c, i)
+		}
+	}
+	return
+}()
+
+// tinits draws the facts of a temporal layer: 1-5 atoms, most of them of one predicate (so that atoms of the
+// same predicate are streamed between the copies of an atom that two layers hold), each with 1-3 intervals.
+// Atoms of the layer below (lower) are picked on purpose: the layers of one adapter may overlap. Other
+// atoms are new to the whole tree.
+func (g *gen) tinits(used map[string]bool, at bool, lower []Atom) []Atom {
+	lp := rapid.SampledFrom([]int{1, 1, 2, 2, 3, 4, 5, 0, 7}).Draw(g.t, "tlayerpred")
+	n := rapid.IntRange(1, 5).Draw(g.t, "ntinit")
+	var res []Atom
+	mine := map[string]bool{}
+	for i := 0; i < n; i++ {
+		var a Atom
+		fromLower := false
+		switch w := rapid.IntRange(0, 99).Draw(g.t, "tinit"); {
+		case w < 45 && len(lower) > 0:
+			a = g.pick(lower, "tinit-lower")
+			a.Iv = nil
+			fromLower = true
+		case w < 80:
+			a = g.mention(g.freshAtomOf(lp))
+		default:
+			a = g.atom("init", pref{g.mentioned, 25})
+		}
+		id := atomID(a)
+		if mine[id] || (used[id] && !fromLower) {
+			continue
+		}
+		mine[id] = true
+		used[id] = true
+		k := rapid.IntRange(1, 3).Draw(g.t, "nintervals")
+		for j := 0; j < k; j++ {
+			from := ivAny
+			if at && j == 0 {
+				from = ivContaining
+			}
+			a.Iv = append(a.Iv, rapid.SampledFrom(from).Draw(g.t, "interval"))
+		}
+		res = append(res, a)
+		if !fromLower {
+			g.baseAtoms[g.cur] = append(g.baseAtoms[g.cur], Atom{P: a.P, A: a.A})
+		}
+	}
+	return res
+}
+
+// tlayers draws the temporal layers below an adapter: one TemporalStore, in a third of the cases with a
+// TeeingTemporalStore layer on top of it (two pushed source fragments).
+func (g *gen) tlayers(used map[string]bool, at bool) *Store {
+	l := Store{Kind: kTLayer, Init: g.tinits(used, at, nil)}
+	if rapid.IntRange(0, 2).Draw(g.t, "tlayer2") == 0 {
+		l = Store{Kind: kTLayer, Base: &Store{Kind: kTLayer, Init: l.Init}, Init: g.tinits(used, at, l.Init)}
+	}
+	return &l
 }
 
 // store draws a configuration. kind "" = any. removable: the result must implement FactStoreWithRemove
@@ -219,6 +295,9 @@ func (g *gen) store(kind string, depth int, removable, base bool, used map[strin
 	}
 	if s.Kind == kTemporalAt {
 		s.At = rapid.SampledFrom([]int64{0, 1, -1, 1704103200000000000}).Draw(g.t, "at")
+	}
+	if (s.Kind == kTemporal || s.Kind == kTemporalAt) && rapid.IntRange(0, 9).Draw(g.t, "tlayered") < 6 {
+		s.Base = g.tlayers(used, s.Kind == kTemporalAt)
 	}
 	if maxInit > 0 {
 		s.Init = g.inits(maxInit, used, base)
@@ -334,6 +413,9 @@ func genCase(t *rapid.T) Case {
 		}
 	}
 	c := Case{Dom: dom}
+	// when the stores are read back: after every step, at generated observe steps, at the end only
+	c.Observe = rapid.SampledFrom([]string{obsSteps, obsEvery, obsEnd, obsEvery, obsSteps, obsEvery, obsSteps, obsEnd, obsEvery, obsSteps}).Draw(t, "observe")
+	g.observe = c.Observe
 
 	nsec := rapid.IntRange(1, 3).Draw(t, "nsecondary")
 	for i := 0; i <= nsec; i++ {
@@ -341,6 +423,7 @@ func genCase(t *rapid.T) Case {
 		g.present = append(g.present, nil)
 		g.removed = append(g.removed, nil)
 		g.baseAtoms = append(g.baseAtoms, nil)
+		g.held = append(g.held, map[string]Atom{})
 		var s Store
 		if i == 0 {
 			s = g.store(rapid.SampledFrom(topKinds).Draw(t, "kind"), 2, false, false, map[string]bool{}, 0)
@@ -349,6 +432,7 @@ func genCase(t *rapid.T) Case {
 		}
 		g.stores = append(g.stores, s)
 		g.canRemove = append(g.canRemove, supportsRemove(s))
+		g.tlayered = append(g.tlayered, (s.Kind == kTemporal || s.Kind == kTemporalAt) && s.Base != nil)
 	}
 	c.Stores = g.stores
 
@@ -373,8 +457,157 @@ func (g *gen) target() int {
 	return rapid.IntRange(1, len(g.stores)-1).Draw(g.t, "on")
 }
 
+// noteAdd / noteRemove / noteMerge keep the guess of what each store holds.
+func (g *gen) noteAdd(on int, a Atom) {
+	g.present[on] = append(g.present[on], a)
+	g.held[on][atomID(a)] = a
+}
+
+func (g *gen) noteRemove(on int, a Atom) {
+	g.removed[on] = append(g.removed[on], a)
+	if g.canRemove[on] {
+		delete(g.held[on], atomID(a))
+	}
+}
+
+// predCounts: per predicate the number of atoms store on is believed to show.
+func (g *gen) predCounts(on int) []int {
+	n := make([]int, len(preds))
+	seen := map[string]bool{}
+	for id, a := range g.held[on] {
+		seen[id] = true
+		n[a.P]++
+	}
+	for _, a := range g.baseAtoms[on] {
+		if !seen[atomID(a)] {
+			seen[atomID(a)] = true
+			n[a.P]++
+		}
+	}
+	return n
+}
+
+// sortedHeld returns the guessed atoms of the write layer in a fixed order (draws must not depend on map order).
+func (g *gen) sortedHeld(on int) []Atom {
+	ids := make([]string, 0, len(g.held[on]))
+	for id := range g.held[on] {
+		ids = append(ids, id)
+	}
+	sort.Strings(ids)
+	res := make([]Atom, len(ids))
+	for i, id := range ids {
+		res[i] = g.held[on][id]
+	}
+	return res
+}
+
+// listedBy is called when the step just drawn makes some consumer list the predicates of store x: in 40% of
+// the cases (where the store can remove, and the harness does not list after every step anyway) a predicate
+// churn follows.
+func (g *gen) listedBy(x int) {
+	if g.observe != obsEvery && g.churnStage == 0 && g.canRemove[x] && rapid.IntRange(0, 9).Draw(g.t, "churn") < 4 {
+		g.churnOn, g.churnStage = x, 1
+	}
+}
+
+// observeStep draws an observation of store on.
+func (g *gen) observeStep(on int) Step {
+	hows := []string{howScan, howScan, howScan, howAll, howEnum, howEnum, howCopy, howCopy, howCopy, howCopy}
+	if g.observe == obsEvery {
+		// the full scan happens anyway
+		hows = []string{howEnum, howCopy, howCopy}
+	}
+	s := Step{Op: "observe", On: on, How: rapid.SampledFrom(hows).Draw(g.t, "how")}
+	if s.How == howCopy {
+		// K08: a hash-keyed copy must not receive two atoms with equal Atom.Hash(). A store with a hash-keyed
+		// container never holds such a pair while the exclusion is active; a store without one (array only)
+		// can, unless the domain has no hash-equal values.
+		s.Into = kArray
+		if hashKeyed(g.stores[on]) || len(g.twinIdx) == 0 {
+			s.Into = rapid.SampledFrom([]string{kSimple, kIndexed, kMulti, kArray, kTemporal}).Draw(g.t, "into")
+		}
+	}
+	return s
+}
+
+// lister draws a step that makes some consumer list the predicates of store x.
+func (g *gen) lister(x int) Step {
+	switch w := rapid.IntRange(0, 9).Draw(g.t, "lister"); {
+	case w < 3:
+		return Step{Op: "preds", On: x}
+	case w < 6 && g.observe != obsEnd:
+		return g.observeStep(x)
+	}
+	into := (x + rapid.IntRange(1, len(g.stores)-1).Draw(g.t, "listinto")) % len(g.stores)
+	return g.mergeStep(into, x)
+}
+
+func (g *gen) mergeStep(on, from int) Step {
+	src := append(append([]Atom(nil), g.present[from]...), g.baseAtoms[from]...)
+	g.present[on] = append(g.present[on], src...)
+	for id, a := range g.held[from] {
+		g.held[on][id] = a
+	}
+	for _, a := range g.baseAtoms[from] {
+		g.held[on][atomID(a)] = a
+	}
+	g.hotStores = []int{from, on}
+	g.hotAtoms = src
+	g.hotLeft = 3
+	return Step{Op: "merge", On: on, From: from}
+}
+
+// churnStep continues a predicate churn on store churnOn; ok = false: nothing to do at this stage.
+func (g *gen) churnStep() (Step, bool) {
+	x := g.churnOn
+	counts := g.predCounts(x)
+	switch g.churnStage {
+	case 1:
+		var single []Atom
+		for _, a := range g.sortedHeld(x) {
+			if counts[a.P] == 1 {
+				single = append(single, a)
+			}
+		}
+		if len(single) == 0 {
+			g.churnStage = 0
+			return Step{}, false
+		}
+		g.churnStage = 2
+		a := g.pick(single, "churn-remove")
+		g.noteRemove(x, a)
+		return Step{Op: "remove", On: x, Atom: &a}, true
+	case 2:
+		var absent []int
+		for p, n := range counts {
+			if n == 0 {
+				absent = append(absent, p)
+			}
+		}
+		if len(absent) == 0 {
+			g.churnStage = 0
+			return Step{}, false
+		}
+		g.churnStage = 3
+		a := g.mention(g.freshAtomOf(absent[rapid.IntRange(0, len(absent)-1).Draw(g.t, "churn-pred")]))
+		g.noteAdd(x, a)
+		return Step{Op: "add", On: x, Atom: &a}, true
+	default:
+		g.churnStage = 0
+		if rapid.IntRange(0, 9).Draw(g.t, "churn-list") < 7 {
+			return g.lister(x), true
+		}
+		return Step{}, false
+	}
+}
+
 // step draws one operation; the lists of mentioned / present / removed atoms make hits likely.
 func (g *gen) step() Step {
+	if g.churnStage > 0 {
+		if s, ok := g.churnStep(); ok {
+			return s
+		}
+	}
 	// Right after a merge: change one of the two stores on a predicate that took part in it (a new atom of
 	// such a predicate, or the removal of a merged atom), so that state shared between them shows up.
 	if g.hotLeft > 0 && len(g.hotAtoms) > 0 && rapid.IntRange(0, 9).Draw(g.t, "hot") < 6 {
@@ -382,20 +615,36 @@ func (g *gen) step() Step {
 		on := g.hotStores[rapid.IntRange(0, 1).Draw(g.t, "hotstore")]
 		h := g.pick(g.hotAtoms, "hotatom")
 		if g.canRemove[on] && rapid.IntRange(0, 9).Draw(g.t, "hotremove") < 4 {
-			g.removed[on] = append(g.removed[on], h)
+			g.noteRemove(on, h)
 			return Step{Op: "remove", On: on, Atom: &h}
 		}
 		a := g.mention(g.freshAtomOf(h.P))
-		g.present[on] = append(g.present[on], a)
+		g.noteAdd(on, a)
 		return Step{Op: "add", On: on, Atom: &a}
 	}
 	on := g.target()
+	// observations: frequent where they are the only read-back, now and then (other consumers) elsewhere
+	obsPct := 0
+	switch g.observe {
+	case obsSteps:
+		obsPct = 12
+	case obsEvery:
+		obsPct = 4
+	}
+	if rapid.IntRange(0, 99).Draw(g.t, "obs") < obsPct {
+		g.listedBy(on)
+		return g.observeStep(on)
+	}
 	var s Step
 	switch w := rapid.IntRange(0, 99).Draw(g.t, "op"); {
 	case w < 28:
-		a := g.atom("add", pref{g.removed[on], 30}, pref{g.baseAtoms[on], 10}, pref{g.mentioned, 15})
+		basePct := 10
+		if g.tlayered[on] {
+			basePct = 35 // atoms the temporal layers hold: the adapter writes them to the output layer as well
+		}
+		a := g.atom("add", pref{g.removed[on], 30}, pref{g.baseAtoms[on], basePct}, pref{g.mentioned, 15})
 		s = Step{Op: "add", On: on, Atom: &a}
-		g.present[on] = append(g.present[on], a)
+		g.noteAdd(on, a)
 	case w < 43:
 		if !g.canRemove[on] {
 			a := g.atom("contains", pref{g.mentioned, 60})
@@ -404,7 +653,7 @@ func (g *gen) step() Step {
 		}
 		a := g.atom("remove", pref{g.present[on], 65}, pref{g.baseAtoms[on], 15}, pref{g.mentioned, 5})
 		s = Step{Op: "remove", On: on, Atom: &a}
-		g.removed[on] = append(g.removed[on], a)
+		g.noteRemove(on, a)
 	case w < 52:
 		a := g.atom("contains", pref{g.present[on], 40}, pref{g.mentioned, 30})
 		s = Step{Op: "contains", On: on, Atom: &a}
@@ -421,6 +670,14 @@ func (g *gen) step() Step {
 		for _, a := range g.present[on] {
 			if mode == 0 || (mode == 3 && len(a.A) >= 1) || len(a.A) >= 2 {
 				cands = append(cands, a)
+			}
+		}
+		if g.tlayered[on] {
+			// the atoms of the temporal layers are what the adapter has to report once
+			for _, a := range g.baseAtoms[on] {
+				if mode == 0 || (mode == 3 && len(a.A) >= 1) || len(a.A) >= 2 {
+					cands = append(cands, a)
+				}
 			}
 		}
 		if len(cands) > 0 && rapid.IntRange(0, 3).Draw(g.t, "qhit") > 0 {
@@ -441,14 +698,11 @@ func (g *gen) step() Step {
 			on = rapid.IntRange(1, len(g.stores)-1).Draw(g.t, "into")
 			from = 1 + (on-1+rapid.IntRange(1, len(g.stores)-2).Draw(g.t, "fromoff"))%(len(g.stores)-1)
 		}
-		s = Step{Op: "merge", On: on, From: from}
-		src := append(append([]Atom(nil), g.present[from]...), g.baseAtoms[from]...)
-		g.present[on] = append(g.present[on], src...)
-		g.hotStores = []int{from, on}
-		g.hotAtoms = src
-		g.hotLeft = 3
+		s = g.mergeStep(on, from)
+		g.listedBy(from)
 	case w < 95:
 		s = Step{Op: "preds", On: on}
+		g.listedBy(on)
 	default:
 		s = Step{Op: "count", On: on}
 	}
